@@ -33,12 +33,15 @@ class SpecCtx:
 
 class SpecRT:
     SPEC_FORMS = {'old', 'forall', 'exists', 'requires', 'ensures', 'raises', 'modifies', 'modifies_all',
-                  'modifies_cattr', 'returns_abs', 'label'}
+                  'modifies_cattr', 'returns_abs', 'label', 'modifies_ghost'}
     SPEC_BUILTINS = {'implies', 'iff', 'floor_of', 'ceil_of', 'pow10', 'is_int', 'is_none', 'is_instance', 'fresh',
                      'allocated', 'and_', 'or_', 'not_', 'ite', 'is_dfmt', 'is_dfmt_g', 'str_denotes',
                      'kind_of', 'cls', 'is_val', 'same_ref', 'truthy', 'str_of_int', 'any_int', 'any_str',
                      'any_bool', 'any_none', 'is_any_int', 'any_to_int', 'unchanged', 'log_len', 'logged',
-                     'sv', 'static', 'has_underscore', 'floor_real', 'to_real'}
+                     'sv', 'static', 'has_underscore', 'floor_real', 'to_real',
+                     'ghost', 'in_election', 'logged_now', 'seq_len', 'seq_at', 'is_whole', 'times_whole', 'some',
+                     'cand_by_cid', 'validcid', 'whole', 'units', 'scale_S', 'is_ballot', 'hopeful_set',
+                     'mem', 'length', 'msg_names', 'exact_arith', 'instance_is', 'V_of_int', 'field_updated', 'field_unchanged'}
 
     def init(self):
         self.ctx = None
@@ -148,6 +151,12 @@ class SpecRT:
                 ov = self.spec_eval(e.args[0], st, fr)
                 for fa in e.args[1:]:
                     ctx.modifies.append(('all', ov.info.qualname, ast.literal_eval(fa)))
+            return ex.ok(NONE, st)
+        if name == 'modifies_ghost':
+            if ctx is not None and ex.spec_mode == 'pre':
+                ctx.frame_declared = True
+                for fa in e.args:
+                    ctx.modifies.append(('ghost', ast.literal_eval(fa)))
             return ex.ok(NONE, st)
         if name == 'label':
             return ex.ok(NONE, st)
@@ -347,7 +356,17 @@ class SpecRT:
         return out
 
     def assumptions(self, st, extra_terms=None):
-        return list(st.pc) + self.instantiate_facts(st)
+        out = list(st.pc) + self.instantiate_facts(st)
+        # the schemas themselves, quantified (for goals that quantify over fresh elements)
+        q = z3.Int('q!')
+        for cname, fn in st.facts:
+            try:
+                body = fn(q)
+            except Exception:
+                continue
+            if body is not None and not z3.is_true(body):
+                out.append(z3.ForAll([q], body))
+        return out
 
     def site_anchor(self, info, node):
         ex = self.ex
@@ -413,6 +432,9 @@ class SpecRT:
                 if kind is None:
                     raise Unsupported('modifies unknown class attribute %s.%s' % (cq, attr))
                 st.cattr[(cq, attr)] = self.fresh_of_kind(kind, 'hv_' + attr)
+            elif m[0] == 'ghost':
+                from .models import ghost_get, ghost_fresh
+                st.ghost['g:' + m[1]] = ghost_fresh(m[1])
             elif m[0] == 'all':
                 _, cq, fld = m
                 kind = self.field_kind(cq, fld)
